@@ -21,6 +21,7 @@ import (
 	"net/http/httptest"
 	"sort"
 	"strconv"
+	"strings"
 	"time"
 
 	"github.com/vulcand/oxy/v2/internal/holsterv4/clock"
@@ -134,9 +135,12 @@ func (l *limiter) requestWith(src, amount, sel int64) (int64, int64, bool, strin
 	return int64(rec.Code), 0, ran, "unexpected status"
 }
 
-func srcName(s int64) string { return fmt.Sprintf("s%03d", s) }
+// source tokens are long and share their first 70 bytes (API keys, bearer tokens): distinct tokens are distinct sources
+var srcPrefix = strings.Repeat("apikey-", 10)
+
+func srcName(s int64) string { return fmt.Sprintf("%ss%03d", srcPrefix, s) }
 func srcID(n string) int64 {
-	v, _ := strconv.ParseInt(n[1:], 10, 64)
+	v, _ := strconv.ParseInt(strings.TrimPrefix(n, srcPrefix)[1:], 10, 64)
 	return v
 }
 
